@@ -466,6 +466,30 @@ func one(run *kit.Run, r *rand.Rand) {
 			}
 			check("RightmostTrustedRange(private ranges)", res, want, true, true)
 		}
+		// the same ranges written by hand the other way the standard library allows: 16-byte IPv4 addresses with 4-byte
+		// masks (net.IPv4 / net.ParseIP with net.CIDRMask(n, 32))
+		hand := make([]net.IPNet, 0, len(ranges))
+		for _, rg := range ranges {
+			if v4 := rg.IP.To4(); v4 != nil {
+				ones, _ := rg.Mask.Size()
+				hand = append(hand, net.IPNet{IP: net.IPv4(v4[0], v4[1], v4[2], v4[3]), Mask: net.CIDRMask(ones, 32)})
+			} else {
+				hand = append(hand, rg)
+			}
+		}
+		if res2, err := clientip.NewRightmostTrustedRange(hk, clientip.TrustedIPRangeFunc(func() ([]net.IPNet, error) { return hand, nil })); err == nil {
+			want := "error"
+			for _, e := range rev {
+				if e.valid && e.private {
+					continue
+				}
+				if e.valid {
+					want = e.ip
+				}
+				break
+			}
+			check("RightmostTrustedRange(private ranges, hand-built IPNets)", res2, want, true, true)
+		}
 	}
 	// rightmost trusted range with an EMPTY list: nobody is trusted, the rightmost entry is the answer (an error if it
 	// is not an address)
@@ -505,6 +529,25 @@ func one(run *kit.Run, r *rand.Rand) {
 	{
 		a, _ := clientip.NewRightmostNonPrivate(hk)
 		b, _ := clientip.NewRightmostTrustedCount(hk, 1)
+		// a longer chain whose first resolvers all fail (single-address headers that are absent) gives the same answer
+		var many []fox.ClientIPResolver
+		for _, hn := range []string{"X-Absent-1", "X-Absent-2", "X-Absent-3", "X-Absent-4", "X-Absent-5", "X-Absent-6"} {
+			if sr, err := clientip.NewSingleIPHeader(hn); err == nil {
+				many = append(many, sr)
+			}
+		}
+		long := clientip.NewChain(append(many, a, b, clientip.NewRemoteAddr())...)
+		rep := map[string]any{"header": key, "values": vals, "resolver": "long chain"}
+		defer func() {
+			var gotL string
+			if !run.Guard("panic|long-chain|"+id, rep, func() { gotL = result(long.ClientIP(ctxFor(key, vals, "192.0.2.200:4444", nil))) }) {
+				var gotS string
+				run.Guard("panic|chain|"+id, rep, func() { gotS = result(clientip.NewChain(a, b, clientip.NewRemoteAddr()).ClientIP(ctxFor(key, vals, "192.0.2.200:4444", nil))) })
+				if gotL != gotS {
+					run.Violate("long-chain|"+id, fmt.Sprintf("a chain of 6 failing resolvers followed by the usual three returns %s, the usual three alone return %s\n%s=%q", gotL, gotS, key, vals), rep)
+				}
+			}
+		}()
 		chain := clientip.NewChain(a, b, clientip.NewRemoteAddr())
 		want := "192.0.2.200"
 		if len(rev) > 0 && rev[0].valid {
